@@ -582,6 +582,22 @@ def gen_case_flat(rng, tier, cond_only=False):
                 ['cmp', rng.choice(ops), flat, ['map', ['f', F[rng.choice('ab')]], ['var', 1]]], rng.choice(['fn', 'args'])]
     else:
         cond = ['in', flat, ['map', ['f', F['pair']], ['var', 1]]]
+    if not cond_only and rng.random() < 0.12:
+        # every element is a PAIR (a, b); an ITEM of the element is selected (not the element itself) and the condition is a
+        # disjunction over items of the element: two elements of one parent that qualify through the right branch only are two rows
+        inner_field = 'groups'
+        for o in heap:
+            while len(o) < 10:
+                o.append([])
+            o[9] = [[rng.randint(0, 3), rng.randint(0, 1)] for _ in range(rng.randint(0, 3))]
+        ft = ['map', ['f', F['groups']], ['var', 1]]
+        flat = ['flat', 5, ft]
+        it = lambda j: ['map', ['i', j], flat]
+        cond = ['or', ['cmp', rng.choice(['>', '==', '<']), it(0), ['lit', rng.randint(0, 3)]],
+                ['cmp', '==', it(1), ['lit', rng.randint(0, 1)]], rng.choice(['fn', 'op'])]
+        sel = rng.choice([[it(0)], [it(0), ['var', 1]], [it(1), it(0)]])
+        return dict(heap=heap, doms=doms, binders=[['var', 1], ['flat', 5, ft]], sel=sel, cond=cond, form='set_of' if len(sel) > 1 or rng.random() < 0.5 else 'entity',
+                    list_items=rng.random() < 0.5)
     if cond_only or rng.random() < 0.2:
         # the flattened expression is used by the condition only (the parent alone is selected): a parent qualifies through ANY of
         # its elements, or through a condition on itself; optionally a further condition on the parent comes first
